@@ -51,13 +51,20 @@ class Check:
         import importlib
         import flow as _flow, versions as _versions
         mod = importlib.import_module(module)
-        sub = Check(module.upper(), "quick", self.level)
-        saved_k, saved_v = dict(_flow.KEYNODE), dict(_versions.VERSION_LOCALS)
-        try:
-            mod.run(F, sub)
-        finally:
-            _flow.KEYNODE.clear(); _flow.KEYNODE.update(saved_k)
-            _versions.VERSION_LOCALS.clear(); _versions.VERSION_LOCALS.update(saved_v)
+        # one evaluation per (facts, module): several properties adopt rules of the same module, directly and through each other
+        memo = getattr(F, "_shared_runs", None)
+        if memo is None:
+            memo = F._shared_runs = {}
+        sub = memo.get(module)
+        if sub is None:
+            sub = Check(module.upper(), "quick", self.level)
+            saved_k, saved_v = dict(_flow.KEYNODE), dict(_versions.VERSION_LOCALS)
+            try:
+                mod.run(F, sub)
+            finally:
+                _flow.KEYNODE.clear(); _flow.KEYNODE.update(saved_k)
+                _versions.VERSION_LOCALS.clear(); _versions.VERSION_LOCALS.update(saved_v)
+            memo[module] = sub
         rid = self.rule(as_rule, "%s (rules %s of %s, evaluated on the same facts)" % (why, ", ".join(rule_ids), module.upper()))
         n = 0
         for r in rule_ids:
